@@ -97,7 +97,7 @@ class Site:
     @property
     def name(self):
         """best resolved callee key"""
-        return self.res or self.callee
+        return self.res or self.callee or ''
 
     def names(self):
         return {x for x in (self.res, self.callee) if x}
@@ -320,6 +320,21 @@ class Fn:
         """a post-dominates b (w.r.t. returning paths)"""
         p = self.postdominators()
         return b in p and a in p[b]
+
+    def reach_from(self, b):
+        """blocks reachable from b over normal edges (excluding b itself unless on a cycle)"""
+        key = ('rf', b)
+        if key not in self._cache:
+            seen = set()
+            st = list(self.succs(b))
+            while st:
+                x = st.pop()
+                if x in seen:
+                    continue
+                seen.add(x)
+                st.extend(self.succs(x))
+            self._cache[key] = seen
+        return self._cache[key]
 
     def back_edges(self):
         dom = self.dominators()
